@@ -125,18 +125,25 @@ def rightPairs (lags : List Rat) (u : LagUnit) (edge : List Cell) : List (Rat ×
 def emptyCell (c : Cell) (ev : Date) : Cell :=
   { kind := .cumulative, ps := c.ps, pe := c.pe, ev := ev, prev := none, values := [], md := c.md }
 
+/-- the lag list of a slice: the requested one, or `{cell.dev_lag(unit) for cell in slice_}` -/
+def lagListOf (lags : Option (List Rat)) (u : LagUnit) (slice : List Cell) : List Rat :=
+  match lags with
+  | some l => l
+  | none => (slice.map fun c => c.devLag u).eraseDups
+
+/-- one `CumulativeCell(...)` of the comprehension: evaluation date, then the validating constructor -/
+def rightCellOf (u : LagUnit) (p : Rat × Cell) : Except Err Cell := do
+  let ev ← addDevLag p.2.pe p.1 u
+  (emptyCell p.2 ev).mk?
+
 /-- `_make_right_triangle_slice(dev_lags, unit, slice_)` -/
 def rightTriangleSlice (lags : Option (List Rat)) (u : LagUnit) (slice : List Cell) :
     Except Err (List Cell) := do
-  let lagList := match lags with
-    | some l => l
-    | none => (slice.map fun c => c.devLag u).eraseDups
   let edge ← Triangle.rightEdge slice
   -- `int > timedelta` is a `TypeError` at the first comparison
-  if u == .timedelta && lags.isSome && !lagList.isEmpty && !edge.isEmpty then throw .typeError
-  (rightPairs lagList u edge).mapM fun (lag, c) => do
-    let ev ← addDevLag c.pe lag u
-    (emptyCell c ev).mk?
+  if u == .timedelta && lags.isSome && !(lagListOf lags u slice).isEmpty && !edge.isEmpty then
+    throw .typeError
+  (rightPairs (lagListOf lags u slice) u edge).mapM (rightCellOf u)
 
 /-- `_fix_prev_evaluation_date(triangle, right_tri)` -/
 def fixPrevEvaluationDate (t right : List Cell) : Except Err (List Cell) := do
@@ -181,7 +188,7 @@ def rightDiagonalSlice (dates : List Date) (hist : Bool) (slice : List Cell) :
     | some m => dates.filter fun d => m < d
     | none => dates
   let edge ← Triangle.rightEdge slice
-  (diagPairs dates' edge).mapM fun (c, d) => (emptyCell c d).mk?
+  (diagPairs dates' edge).mapM fun p => (emptyCell p.1 p.2).mk?
 
 /-- `make_right_diagonal(triangle, evaluation_dates, include_historic)` -/
 def makeRightDiagonal (t : List Cell) (dates : List Date) (hist : Bool) :
